@@ -210,6 +210,8 @@ func directedMatrices() []matIn {
 		sq("witness:qr,block2x2-stall,n=4", 4, 0, 0, 0, 0, 1, 0, 1, -1, -1, 0, 0, 0, -1, 0, 0, 0),
 		sq("witness:qr,francis-stall,n=5", 5, 0, 0, 0, 0, 0, 0, 0, 0, 1, 0, 1, 0, 0, -2, 1, -2, 0, 0, 0, 0, 0, 1, -1, 0, 0),
 		sq("witness:qr,block2x2-cycle,n=4", 4, 0, 0, -1, 0, 0, 0, 0, 1, -1, 0, 0, 0, 0, 0, 0, 0),
+		sq("witness:qr-symmetric,stall,n=4", 4, 1, 1, 1, 0, 1, 0, 0, 1, 1, 0, 0, -1, 0, 1, -1, 1),
+		sq("witness:msqrt,singular,n=5", 5, 1, 2, -1, -2, 2, 2, 1, -2, 1, 1, -1, -1, 1, -1, -1, 2, 1, -2, 0, 1, -1, 2, -1, 1, 1),
 		sq("witness:svd,singular,n=4", 4, -1, -2, 2, -1, 2, -2, 2, -2, 0, 0, 0, 0, 0, 0, -2, 2),
 		sq("witness:svd,singular,n=5", 5, -1, 1, 1, -1, 1, 0, 1, 1, 1, 0, 0, -1, 0, -1, 1, 0, 0, 0, -1, 0, 0, 0, 0, 1, 0))
 	// non-finite entries
@@ -467,6 +469,10 @@ func runMatrix(cs *fw.Case, m matIn, real bool) {
 			// eigensystem.Run calls qrAlgorithm.Run(ComputeU{true}); a no-return of that
 			// callee on the same input is reported once, at the callee
 			if okT && qt.site == nr.site {
+				cs.Cover("attributed-to-callee:eigensystem.Run->qrAlgorithm.Run")
+				continue
+			}
+			if qs, ok := failed["qrAlgorithm.Run|symmetric,epsilon=default,computeU=true"]; ok && opts == "symmetric" && qs.site == nr.site {
 				cs.Cover("attributed-to-callee:eigensystem.Run->qrAlgorithm.Run")
 				continue
 			}
